@@ -256,7 +256,7 @@ def run(ctx):
         loops = [n for n in f.own_nodes() if n['k'] in ('ForStmt', 'WhileStmt', 'DoStmt')]
         calls = [n for n in f.own_nodes() if n.get('cn') == 'yaclib::detail::GetRandNumber']
         ok = None
-        if len(loops) == 1 and len(calls) == 1 and loops[0]['k'] == 'ForStmt' and \
+        if len(loops) == 1 and len(calls) == 1 and loops[0]['k'] in ('ForStmt', 'WhileStmt') and \
                 calls[0]['i'] in f.descendants(loops[0]['body']):
             lp = loops[0]
             body = set(f.descendants(lp['body']))
@@ -271,40 +271,45 @@ def run(ctx):
                 if n['k'] == 'DeclRefExpr' and n.get('id') in f.params:
                     return ('p',)
                 return None
-            ind = start = None
-            for d in f.descendants(lp['i']):
-                m = f.nodes[d]
-                if m['k'] == 'DeclStmt' and d not in body:
-                    for v in m['vars']:
-                        if 'init' in v:
-                            ind, start = v['id'], val(v['init'])
-            step = 0
-            nsteps = 0
-            for d in f.descendants(lp['i']):
-                m = f.nodes[d]
-                if d in body or m['k'] not in ('UnaryOperator', 'CompoundAssignOperator'):
-                    continue
-                if (f.sn(m['ch'][0]) or {}).get('id') != ind:
-                    continue
-                if m['k'] == 'UnaryOperator' and m.get('op') in ('++', '--'):
-                    step, nsteps = (1 if m['op'] == '++' else -1), nsteps + 1
-                elif m['k'] == 'CompoundAssignOperator' and m.get('op') in ('+=', '-=') and val(m['ch'][1]) == ('c', 1):
-                    step, nsteps = (1 if m['op'] == '+=' else -1), nsteps + 1
+            # the induction variable is the variable the loop condition compares: a local or the parameter itself
             c = f.sn(lp['cond']) if 'cond' in lp else None
-            bound = None
-            if c is not None and c['k'] == 'BinaryOperator' and ind is not None:
+            ind = bound = cop = None
+            if c is not None and c['k'] == 'BinaryOperator' and c['op'] in ('!=', '<', '>'):
                 a, b = f.sn(c['ch'][0]), f.sn(c['ch'][1])
-                if a is not None and a['k'] == 'DeclRefExpr' and a.get('id') == ind:
-                    bound, cop = val(c['ch'][1]), c['op']
-                elif b is not None and b['k'] == 'DeclRefExpr' and b.get('id') == ind:
-                    bound, cop = val(c['ch'][0]), {'<': '>', '>': '<'}.get(c['op'], c['op'])
-            if bound is not None and start is not None and nsteps == 1:
+                inits = {v['id']: v['init'] for m in (f.nodes[d] for d in f.descendants(lp['i']))
+                         if m['k'] == 'DeclStmt' and m['i'] not in body for v in m['vars'] if 'init' in v}
+                for x, y, flip in ((a, b, False), (b, a, True)):
+                    if x is not None and x['k'] == 'DeclRefExpr' and 'id' in x and val(y['i']) is not None and \
+                            (x['id'] in inits or (x['id'] in f.params and val(y['i']) == ('c', 0))):
+                        ind, bound = x['id'], val(y['i'])
+                        cop = {'<': '>', '>': '<'}.get(c['op'], c['op']) if flip else c['op']
+                        start = val(inits[ind]) if ind in inits else ('p',)
+                        break
+            if ind is not None:
+                step = 0
+                nsteps = 0
+                conditional = False
+                for d in f.descendants(lp['i']):
+                    m = f.nodes[d]
+                    if m['k'] not in ('UnaryOperator', 'CompoundAssignOperator') or \
+                            (f.sn(m['ch'][0]) or {}).get('id') != ind:
+                        continue
+                    if m['k'] == 'UnaryOperator' and m.get('op') in ('++', '--'):
+                        step, nsteps = (1 if m['op'] == '++' else -1), nsteps + 1
+                    elif m['k'] == 'CompoundAssignOperator' and m.get('op') in ('+=', '-=') and \
+                            val(m['ch'][1]) == ('c', 1):
+                        step, nsteps = (1 if m['op'] == '+=' else -1), nsteps + 1
+                    else:
+                        nsteps += 2
+                    par = f.parents.get(d)
+                    while par is not None and par != lp['i']:
+                        if f.nodes[par]['k'] in ('IfStmt', 'ConditionalOperator', 'WhileStmt', 'ForStmt'):
+                            conditional = True
+                        par = f.parents.get(par)
                 # trip count: counting up from `start` while ind != / < bound, or down while ind != / > bound
                 up = step == 1 and cop in ('!=', '<') and start == ('c', 0) and bound == ('p',)
                 down = step == -1 and cop in ('!=', '>') and start == ('p',) and bound == ('c', 0)
-                ok = up or down
-            elif bound is not None or start is not None:
-                ok = False
+                ok = nsteps == 1 and not conditional and (up or down)
         if ok is None:
             ctx.broken('D2: the replay loop of ForwardToRandCount is not recognised')
         if not ok:
